@@ -230,6 +230,14 @@ def configs(tier):
     add("eig/custom_exacteig/A/n2/neig1/lowest/mvonly", eig_grad, n=2, neig=1, method="custom_exacteig", opkind="mvonly")
     add("aux_real_only/batch_mixed_degenerate/custom_exacteig", batch_mixed, method="custom_exacteig", opts={"real_only": True, "validate": 3})
     add("aux_real_only/batch_mixed_degenerate/exacteig", batch_mixed, method="exacteig", opts={"real_only": True, "validate": 3})
+    # exactly degenerate pair with an overlap matrix (M fixed at one SPD point, its factor still is a leaf)
+    # (the 3x3 singular shifted solve of this case is beyond the symbolic contracts: auxiliary concrete differential on the real
+    # code against the closed form, labelled as such; never counted as a solver result)
+    for neig_ in (3, 2):
+        add("aux_real_only/eig/custom_exacteig/AM/n3/neig%d/degenerate" % neig_, eig_grad, n=3, neig=neig_, method="custom_exacteig",
+            withM=True, degenerate=True, opts={"real_only": True, "validate": 4})
+    add("aux_real_only/eig/exacteig/AM/n3/neig3/degenerate", eig_grad, n=3, neig=3, method="exacteig", withM=True, degenerate=True,
+        opts={"real_only": True, "validate": 3})
     add("svd/exacteig/full", svd_grad, mode="uppest", k=None)
     add("svd/custom_exacteig/k1/lowest", svd_grad, mode="lowest", k=1, method="custom_exacteig")
     add("svd/exacteig/wide2x3/mvonly", svd_grad_wide, opkind="mvonly")
